@@ -317,7 +317,7 @@ def scenarios(tier):
             T.append({'name': 'divergence/%s/%s' % (g, ds), 'fn': 'pv.props.c01:divergence_basis',
                       'params': {'g': g, 'dims': dims}, 'timeout': 30, 'validate': 1})
     # TVD anti-diffusive flux: total contribution vanishes
-    tv = {1: [[2], [4]], 2: [[2, 2]], 3: [[2, 2, 2]]} if tier == 'quick' else {1: [[1], [2], [3], [4], [5]], 2: [[2, 2], [3, 2], [2, 3]], 3: [[2, 2, 2], [3, 2, 2]]}
+    tv = {1: [[2], [4]], 2: [[2, 3]], 3: [[2, 2, 2], [2, 3, 4]]} if tier == 'quick' else {1: [[1], [2], [3], [4], [5]], 2: [[2, 2], [3, 2], [2, 3]], 3: [[2, 2, 2], [3, 2, 2], [2, 3, 2], [2, 3, 4]]}
     lims = ['SUPERBEE', 'VanLeer', 'CHARM'] if tier == 'quick' else ['SUPERBEE', 'VanLeer', 'MinMod', 'CHARM', 'ospre', 'Koren', 'HCUS']
     for g in scen.ALL:
         if g == 'SphericalGrid3D':
